@@ -1,5 +1,5 @@
 \* scenario generation (price focus): a random sample (GenMod draws, TLC -seed) of the 3 x 2 x 2 price grid over
 \* prices {1,2,3,5}, zone zb same / overlay-priced / unavailable / not offered, 1..3 removed nodes
-CONSTANTS NTypes = 3  Prices = {1, 2, 3, 5}  ZMods = {"same", "dear", "unavail", "none"}  MaxCands = 3  MinS2S = 2  Focus = "price"  Weak = ""  GenMod = 200  GenRes = 0
+CONSTANTS NTypes = 3  Prices = {1, 2, 3, 5}  ZMods = {"same", "dear", "unavail", "none"}  MaxCands = 3  MinS2S = 2  Focus = "price"  UnavCTs = {}  Weak = ""  GenMod = 200  GenRes = 0
 SPECIFICATION RandSpec
 INVARIANTS GenPrint
